@@ -16,6 +16,7 @@ def mpmath_str(x):
 
 class ValueCheck(Check):
     exact_tol = 1e-25
+    float_rel_floor = 0.0   # checks about value preservation (not evaluator accuracy) may set e.g. 1e-9
 
     def references(self, rec, envs, margin=None, funcs=None, cut_guard=True, mag=None):
         """reference values of the recipe at every env (Unjudgeable objects where not judgeable);
@@ -59,7 +60,7 @@ class ValueCheck(Check):
                 if hasf:
                     tol = on.float_abs_tol(kappa_rec if kappa_rec is not None else rec, env, funcs=funcs, margin=margin,
                                            cut_guard=cut_guard, mag=mag)
-                    ok = on.close(ref, val, 0, tol)
+                    ok = on.close(ref, val, self.float_rel_floor, tol)
                 else:
                     tol = self.exact_tol
                     ok = on.close(ref, val, tol, 1e-30)
